@@ -39,14 +39,23 @@ def build_cases(chk, count, depth=5, bits_choices=(1, 2, 3, 4, 5, 6, 7, 8, 16, 3
     cases = []
     texts = list(G.REGISTRY_STYLE)
     for t in texts:
-        ex = real_parse(t)
-        cases.append((G.from_pyast(ex._node), ex, 32))
+        try:
+            ex = real_parse(t)
+            cases.append((G.from_pyast(ex._node), ex, 32))
+        except Exception as exc:
+            chk.coverage.setdefault('unparsable_cases', []).append({'expr': t, 'exception': repr(exc)})
     while len(cases) < count:
         bits = rng.choice(bits_choices)
         consts = G.boundary_consts(bits)
         e = G.gen_expr(rng, rng.randint(1, depth), consts)
-        ex = real_parse(G.render_full(e))
-        e2 = G.from_pyast(ex._node)
+        try:
+            ex = real_parse(G.render_full(e))
+            e2 = G.from_pyast(ex._node)
+        except Exception as exc:      # the real parser rejects/crashes on a valid, fully parenthesised expression
+            chk.coverage.setdefault('unparsable_cases', []).append({'expr': G.render_full(e), 'exception': repr(exc)})
+            if len(chk.coverage['unparsable_cases']) > 50:
+                break
+            continue
         cases.append((e2, ex, bits))
     return cases
 
@@ -208,4 +217,292 @@ def falsify_period_32(chk, budget):
             if outcome(ex, n, 32) != outcome(ex, n + P, 32):
                 return {'kind': 'period-unsound', 'expr': G.render_full(e), 'bits': 32, 'n': n, 'period': [int(O), int(P)],
                         'replay': f"e=lib.gettext.parse_plural_expression({G.render_full(e)!r}); e.period(), e({n}), e({n + P})"}, tried
+    return None, tried
+
+# ------------------------------------------------------------------ parser correspondence
+
+def hexchars(s):
+    return '.'.join('%x' % ord(c) for c in s) if s else '-'
+
+def impl_parse(s):
+    from lib import gettext as lg
+    try:
+        ex = lg.parse_plural_expression(s)
+    except lg.PluralExpressionSyntaxError:
+        return 'err syntax'
+    except Exception as exc:
+        return 'err ' + type(exc).__name__
+    try:
+        return 'ok ' + G.to_prefix(G.from_pyast(ex._node))
+    except ValueError as exc:
+        return f'err ast-shape {exc}'
+
+TOKEN_KINDS = [['?'], [':'], ['||'], ['&&'], ['==', '!='], ['<', '<=', '>', '>='], ['+', '-'], ['*', '/', '%'], ['!'], ['('], [')'], ['n'], ['0', '1', '7', '10', '42']]
+LEX_ALPHABET = ['n', '0', '1', '!', '=', '<', '>', '&', '|', '?', ':', '(', ')', '+', '%', ' ', '\t', 'x']
+
+def token_strings(rng, maxlen):
+    """every sequence of token kinds up to maxlen, each kind spelled by a random member, joined with a separator that
+    keeps the tokens apart only where juxtaposition would merge them"""
+    import itertools
+    for L in range(0, maxlen + 1):
+        for kinds in itertools.product(range(len(TOKEN_KINDS)), repeat=L):
+            toks = [rng.choice(TOKEN_KINDS[k]) for k in kinds]
+            out = ''
+            for t in toks:
+                if out and ((out[-1].isdigit() and t[0].isdigit()) or (out[-1] in '!=<>' and t[0] == '=') or rng.random() < 0.1):
+                    out += rng.choice([' ', '\t', '  '])
+                out += t
+            yield out
+
+def char_strings(maxlen):
+    import itertools
+    for L in range(0, maxlen + 1):
+        for cs in itertools.product(LEX_ALPHABET, repeat=L):
+            yield ''.join(cs)
+
+def mutate(rng, s):
+    if not s:
+        return 'n'
+    i = rng.randrange(len(s))
+    r = rng.random()
+    pool = 'n0123456789!=<>&|?:()+-*/% \t;x\n'
+    if r < 0.35:
+        return s[:i] + s[i + 1:]
+    if r < 0.7:
+        return s[:i] + rng.choice(pool) + s[i:]
+    return s[:i] + rng.choice(pool) + s[i + 1:]
+
+def stream_parse(chk, tok_len, char_len, n_random):
+    rng = chk.rng
+    strings = []
+    strings += list(token_strings(rng, tok_len))
+    strings += list(char_strings(char_len))
+    strings += list(G.REGISTRY_STYLE)
+    for _ in range(n_random):
+        bits = rng.choice([8, 32])
+        e = G.gen_expr(rng, rng.randint(1, 6), [0, 1, 2, 3, 4, 5, 10, 11, 12, 14, 19, 20, 100, 4294967295, 4294967296, 10 ** 30])
+        s = G.render_min(e, rng)
+        strings.append(s)
+        if rng.random() < 0.5:
+            strings.append(mutate(rng, s))
+        if rng.random() < 0.2:
+            strings.append(mutate(rng, mutate(rng, s)))
+    # numerals at the int() digit limit, inside otherwise valid expressions
+    for d in (4299, 4300, 4301, 5000):
+        strings.append('n == ' + '1' * d)
+        strings.append('0' * d + ' + n')
+    lines = ['plural parse ' + hexchars(s) for s in strings]
+    outs = [impl_parse(s) for s in strings]
+    chk.note_cases({s for s, o in zip(strings, outs) if o.startswith('ok') and len(s) > 1})
+    chk.coverage.setdefault('parse_inputs', {}).update({'token_strings_len_le': tok_len, 'char_strings_len_le': char_len,
+                                                         'random_and_mutated': len(strings), 'accepted': sum(o.startswith('ok') for o in outs)})
+    return chk.stream('plural-parse', lines, outs), strings
+
+# reference parser written directly from plural.y (independent of the Lean model): used by the C04 falsifier
+
+class RefSyntaxError(Exception):
+    pass
+
+def ref_lex(s):
+    i, out = 0, []
+    while i < len(s):
+        c = s[i]
+        if c in ' \t':
+            i += 1; continue
+        if c == 'n':
+            out.append(('n',)); i += 1; continue
+        if c in '0123456789':
+            j = i
+            while j < len(s) and s[j] in '0123456789':
+                j += 1
+            out.append(('num', int(s[i:j]))); i = j; continue
+        two = s[i:i + 2]
+        if two in ('==', '!=', '<=', '>=', '&&', '||'):
+            out.append((two,)); i += 2; continue
+        if c in '<>!*/%+-?:()':
+            out.append((c,)); i += 1; continue
+        raise RefSyntaxError(c)
+    return out
+
+REF_PREC = [('||',), ('&&',), ('==', '!='), ('<', '<=', '>', '>='), ('+', '-'), ('*', '/', '%')]
+
+def ref_parse(s):
+    toks = ref_lex(s)
+    pos = 0
+    def peek():
+        return toks[pos][0] if pos < len(toks) else None
+    def take():
+        nonlocal pos
+        t = toks[pos]; pos += 1
+        return t
+    def cond():
+        c = binary(0)
+        if peek() == '?':
+            take()
+            a = cond()
+            if peek() != ':':
+                raise RefSyntaxError('expected :')
+            take()
+            b = cond()
+            return ('if', c, a, b)
+        return c
+    def binary(level):
+        if level == len(REF_PREC):
+            return unary()
+        left = binary(level + 1)
+        while peek() in REF_PREC[level]:
+            op = take()[0]
+            right = binary(level + 1)
+            kind = 'bool' if op in ('&&', '||') else 'cmp' if op in G.CMP else 'bin'
+            left = (kind, op, left, right)
+        return left
+    def unary():
+        t = peek()
+        if t == '!':
+            take()
+            return ('not', unary())
+        if t == 'n':
+            take(); return ('name',)
+        if t == 'num':
+            return ('num', take()[1])
+        if t == '(':
+            take()
+            e = cond()
+            if peek() != ')':
+                raise RefSyntaxError('expected )')
+            take()
+            return e
+        raise RefSyntaxError(f'unexpected {t}')
+    e = cond()
+    if pos != len(toks):
+        raise RefSyntaxError('trailing')
+    return e
+
+def ref_eval(e, n, bits):
+    """C semantics with the statement's failure rule; returns value or 'overflow'/'zerodiv'"""
+    m = 1 << bits
+    class Fail(Exception):
+        pass
+    def chk(v):
+        if v < 0 or v >= m:
+            raise Fail('overflow')
+        return v
+    def go(e):
+        k = e[0]
+        if k == 'num':
+            return chk(e[1])
+        if k == 'name':
+            return chk(n)
+        if k == 'not':
+            return int(go(e[1]) == 0)
+        if k == 'bin':
+            x, y = go(e[2]), go(e[3])
+            op = e[1]
+            if op == '+': return chk(x + y)
+            if op == '-': return chk(x - y)
+            if op == '*': return chk(x * y)
+            if y == 0:
+                raise Fail('zerodiv')
+            return x // y if op == '/' else x % y
+        if k == 'cmp':
+            x, y = go(e[2]), go(e[3])
+            return int({'==': x == y, '!=': x != y, '<': x < y, '<=': x <= y, '>': x > y, '>=': x >= y}[e[1]])
+        if k == 'bool':
+            x = go(e[2])
+            if e[1] == '&&':
+                return 0 if x == 0 else int(go(e[3]) != 0)
+            return 1 if x != 0 else int(go(e[3]) != 0)
+        if k == 'if':
+            return go(e[2]) if go(e[1]) != 0 else go(e[3])
+        raise ValueError(e)
+    try:
+        return go(e)
+    except Fail as f:
+        return f.args[0]
+
+def shrink_string(s, fails, max_steps=2000):
+    """greedy delta debugging on characters: smallest string (found) on which `fails` still holds"""
+    steps = 0
+    changed = True
+    while changed and steps < max_steps:
+        changed = False
+        for size in (8, 4, 2, 1):
+            i = 0
+            while i < len(s) and steps < max_steps:
+                t = s[:i] + s[i + size:]
+                steps += 1
+                if t != s and fails(t):
+                    s = t
+                    changed = True
+                else:
+                    i += 1
+    return s
+
+def falsify_parse_eval(chk, budget, strings=None):
+    cex, tried = _falsify_parse_eval(chk, budget, strings)
+    if cex is not None and cex.get('kind', '').startswith('parse'):
+        kind = cex['kind']
+        def fails(t):
+            c, _ = _falsify_parse_eval(chk, 1, [t], only_pool=True)
+            return c is not None and c.get('kind') == kind
+        small = shrink_string(cex['input'], fails)
+        c2, _ = _falsify_parse_eval(chk, 1, [small], only_pool=True)
+        if c2 is not None:
+            cex = c2
+    return cex, tried
+
+def _falsify_parse_eval(chk, budget, strings=None, only_pool=False):
+    """C04 on the real code against the reference parser/evaluator written from plural.y."""
+    rng = chk.rng
+    tried = 0
+    pool = list(strings or [])
+    rng.shuffle(pool)
+    pool.sort(key=len)
+    def cands():
+        for s in pool:
+            yield s
+        while not only_pool:
+            e = G.gen_expr(rng, rng.randint(1, 5), [0, 1, 2, 3, 5, 10, 255, 256, 4294967295, 4294967296])
+            s = G.render_min(e, rng)
+            yield s if rng.random() < 0.6 else mutate(rng, s)
+    from lib import gettext as lg
+    for s in cands():
+        if tried >= budget:
+            break
+        tried += 1
+        if sum(ch.isdigit() for ch in s) > 4000:
+            continue
+        try:
+            ref = ref_parse(s)
+        except RefSyntaxError:
+            ref = None
+        try:
+            ex = lg.parse_plural_expression(s)
+            got = G.from_pyast(ex._node)
+        except lg.PluralExpressionSyntaxError:
+            ex, got = None, None
+        except RecursionError:
+            continue
+        except Exception as exc:
+            return {'kind': 'parse-crash', 'input': s, 'exception': repr(exc)}, tried
+        if ref != got:
+            return {'kind': 'parse-differs-from-plural.y', 'input': s, 'tool': repr(got), 'reference': repr(ref),
+                    'replay': f'lib.gettext.parse_plural_expression({s!r})'}, tried
+        if ex is not None and G.size(got) < 60:
+            for bits in (32, rng.choice([1, 2, 3, 8])):
+                m = 1 << bits
+                for n in {0, 1 % m, 2 % m, m - 1, rng.randrange(m), rng.randrange(min(m, 200))}:
+                    want = ref_eval(got, n, bits)
+                    try:
+                        have = ex(n, bits=bits)
+                    except OverflowError:
+                        have = 'overflow'
+                    except ZeroDivisionError:
+                        have = 'zerodiv'
+                    except Exception as exc:
+                        return {'kind': 'eval-crash', 'input': s, 'n': n, 'bits': bits, 'exception': repr(exc)}, tried
+                    ok = (have == want) if isinstance(want, int) else (have in ('overflow', 'zerodiv'))
+                    if not ok:
+                        return {'kind': 'eval-differs-from-C', 'input': s, 'n': n, 'bits': bits, 'tool': have, 'reference': want,
+                                'replay': f'lib.gettext.parse_plural_expression({s!r})({n}, bits={bits})'}, tried
     return None, tried
